@@ -69,35 +69,45 @@ func runC07(p *P, r *R) {
 		if len(puts) == 0 {
 			continue
 		}
-		ids := findInstrs(f, mStoreWord("queueElement.seqID"))
-		r.ob("R07.1", p.fname(f)+": every enqueued element has its id field set", p.pos(f.Pos()), len(ids) >= len(puts), true, "%d id stores for %d enqueue sites", len(ids), len(puts))
+		nSet := 0
+		for _, pi := range puts {
+			if len(elementFieldStores(pi, 1, "queueElement.seqID")) > 0 {
+				nSet++
+			}
+		}
+		r.ob("R07.1", p.fname(f)+": every enqueued element has its id field set", p.pos(f.Pos()), nSet == len(puts), true, "%d of %d enqueue sites pass an element whose id field was stored", nSet, len(puts))
 	}
 	// receive side: handleStreamMessage gets the stream looked up with the element's own id
 	nr := 0
-	for _, f := range p.wireHandlers() {
+	for _, f := range p.wireFamily() {
 		for _, ci := range findInstrs(f, p.mCall("(*Session).handleStreamMessage")) {
 			nr++
 			st := ci.(*ssa.Call).Call.Args[1]
 			ok := false
 			if lk, isC := st.(*ssa.Call); isC && (p.calleeName(&lk.Call) == "(*Session).getStream" || p.calleeName(&lk.Call) == "(*Session).getStreamById") {
 				key := lk.Call.Args[1]
-				if len(findInstrs(f, mPop)) > 0 {
-					ok = isLoadOf(key, "queueElement.seqID")
-				} else {
-					// event: the id decoded from the event's own bytes
-					c, isCall := stripConv(key).(*ssa.Call)
-					ok = isCall && p.calleeName(&c.Call) == "(encoding/binary.bigEndian).Uint32"
-				}
+				// the id of the dequeued element, or (connection event) the id decoded from the event's own bytes
+				c, isCall := stripConv(key).(*ssa.Call)
+				ok = isLoadOf(key, "queueElement.seqID") || (len(findInstrs(f, mPop)) == 0 && isCall && p.calleeName(&c.Call) == "(encoding/binary.bigEndian).Uint32")
 			}
 			r.ob("R07.1", p.fname(f)+": the message is delivered to the stream looked up with the element's own id", p.ipos(ci), ok, true, "")
 		}
 		for _, ci := range findInstrs(f, p.mCall("(*Stream).halfClose")) {
 			nr++
 			st := ci.(*ssa.Call).Call.Args[0]
-			ok := false
-			if lk, isC := st.(*ssa.Call); isC && p.calleeName(&lk.Call) == "(*Session).getStreamById" {
-				c, isCall := stripConv(lk.Call.Args[1]).(*ssa.Call)
-				ok = isCall && p.calleeName(&c.Call) == "(encoding/binary.bigEndian).Uint32"
+			ok := true
+			// a stream handed in as a parameter (per-message helper) is judged at the helper's call sites
+			cands := p.argsFor(st, f)
+			if len(cands) == 0 {
+				ok = false
+			}
+			for _, cand := range cands {
+				okc := false
+				if lk, isC := cand.(*ssa.Call); isC && (p.calleeName(&lk.Call) == "(*Session).getStreamById" || p.calleeName(&lk.Call) == "(*Session).getStream") {
+					c, isCall := stripConv(lk.Call.Args[1]).(*ssa.Call)
+					okc = isLoadOf(lk.Call.Args[1], "queueElement.seqID") || (isCall && p.calleeName(&c.Call) == "(encoding/binary.bigEndian).Uint32")
+				}
+				ok = ok && okc
 			}
 			r.ob("R07.1", p.fname(f)+": the close event closes the stream named in the event", p.ipos(ci), ok, true, "")
 		}
